@@ -281,6 +281,9 @@ def canon_restrictions(a):
             out.append([8, ifm.pop() if len(ifm) == 1 else "mixed-if_missing"] + list(split(v)))
         else:
             out.append(["unknown", k, repr(r)[:80]])
+    # the order of the restrictions inside the AND is a performance choice of the code (see the
+    # comment in atom.restrictions): compare as a set, in the model's order (= by kind id)
+    out.sort(key=lambda x: (99, 0) if not isinstance(x[0], int) else (x[0], int(x[1] is True) if x[0] == 8 else 0))
     return out
 
 
